@@ -99,6 +99,17 @@ def generated_cases(draw):
               "ratios": [draw(st.sampled_from(RATIOS)) for _ in range(3)],
               "target": draw(st.sampled_from([2, 4, 8, 16])),
               "max_scales": draw(st.sampled_from([None, None, 2, 3]))})
+    # bound the cost by the generated size: at most ~1500 chunks at full
+    # resolution (each chunk is one file, the pyramid is computed twice)
+    while True:
+        s0 = _build_info(c)["scales"][0]
+        n = 1
+        for a, b in zip(s0["size"], s0["chunk_sizes"][0]):
+            n *= ds.ceil_div(a, b)
+        if n <= 1500:
+            break
+        i = max(range(3), key=lambda k: c["size"][k])
+        c["size"][i] = max(1, c["size"][i] // 2)
     return c
 
 
@@ -117,6 +128,12 @@ def hand_cases(draw):
     c.update({"mode": "hand",
               "scales": [[size, [draw(cs), draw(cs), draw(cs)]],
                          [new_size, [draw(cs), draw(cs), draw(cs)]]]})
+    # bound the cost: at most ~1500 chunks per scale
+    for sz, ch in c["scales"]:
+        while ds.ceil_div(sz[0], ch[0]) * ds.ceil_div(sz[1], ch[1]) * \
+                ds.ceil_div(sz[2], ch[2]) > 1500:
+            i = min(range(3), key=lambda k: ch[k])
+            ch[i] *= 2
     return c
 
 
